@@ -19,7 +19,8 @@ where target is an identifier ("A") or "@RT:idx" (idx-th non-virtual line of tha
 number of such lines).
 
 Optional generator features (repeated lines, dropid, retag = remove a tag and set it again with another type, refused
-values for new tags, header lines refused next to their VN tag, header-first prelude for a Gfa of unknown version) are
+values for new tags, header lines refused next to their VN tag, header-first prelude for a Gfa of unknown version,
+seg_lengths = segments of other lengths than 10, the empty segment included) are
 switched on per property through profile(); they are listed in the comment above profile().  Without them the
 generated histories are what they always were.
 
@@ -592,6 +593,11 @@ PROFILE = {
 #                        then a refused header line as under fails["header-vn-conflict"] (30%: naming the other
 #                        version).  gen_case(..., p_unknown > 0) makes such a case one with the version unknown.
 #                                                     labels add:<RT>:prelude ... fail:header-vn-conflict
+#   seg_lengths=[n...]  the length of a generated segment is drawn from this list instead of being 10 (GFA2: slen, with a
+#                        sequence of that length where one is written; GFA1: the LN tag where one is written); 0 is a
+#                        legal length ("S x 0 *" is an empty segment); also used for the segment line of a dup-same /
+#                        dup-other call.  Positions of E/F lines stay what they are (nothing ties them to slen)
+#                                                                 label add:S:len<n> when n != 10, else add:S as before
 # gen_fail / gen_mutation may return a list of (step, label) pairs instead of one pair: the steps follow each other.
 def profile(**kw):
     p = dict(PROFILE)
@@ -669,6 +675,11 @@ def _gen_path(rng, m, prof):
     return ",".join(a + o for a, o in walk), ovl
 
 
+def _seq_of(n):
+    """a sequence of n bases ('*' for the empty segment: an empty sequence field cannot be written)"""
+    return ("ACGT" * (n // 4 + 1))[:n] if n > 0 else "*"
+
+
 def unnamed_recs(m):
     """records that may legally occur twice with the same text (no identifier of their own)"""
     return [r for r in m.recs if (r[0] in "EGOU" and r[1] == "*") or r[0] == "F" or
@@ -705,6 +716,14 @@ def gen_add(rng, m, prof):
             if n is None:
                 continue
             seq = "ACGT" if rng.chance(0.1) else "*"
+            if prof.get("seg_lengths"):
+                # optional (default off): segments of other lengths than 10, the empty segment included
+                ln = rng.choice(list(prof["seg_lengths"]))
+                lab = "add:S" if ln == 10 else "add:S:len%d" % ln
+                if v == "gfa1":
+                    t = ["LN:i:%d" % ln] if seq == "*" and rng.chance(0.4) else []
+                    return "\t".join(["S", n, seq] + t + _tags(rng)), (lab if t else "add:S")
+                return "\t".join(["S", n, str(ln), _seq_of(ln) if seq != "*" else "*"] + _tags(rng)), lab
             if v == "gfa1":
                 t = ["LN:i:10"] if rng.chance(0.15) and seq == "*" else []
                 return "\t".join(["S", n, seq] + t + _tags(rng)), "add:S"
@@ -821,6 +840,11 @@ def _line_with_id(rng, m, rt, n, prof):
     """a well-formed line of record type rt carrying identifier n (mentions drawn like a legal addition)"""
     a, b = _pick_seg(rng, m, prof), _pick_seg(rng, m, prof)
     if rt == "S":
+        if prof.get("seg_lengths"):
+            ln = rng.choice(list(prof["seg_lengths"]))
+            if m.v == "gfa1":
+                return "S\t%s\t*" % n + ("\tLN:i:%d" % ln if ln != 10 else "")
+            return "S\t%s\t%d\t*" % (n, ln)
         return "S\t%s\t*" % n if m.v == "gfa1" else "S\t%s\t10\t*" % n
     if rt == "L":
         return "L\t%s\t%s\t%s\t%s\t4M\tID:Z:%s" % (a, rng.choice("+-"), b, rng.choice("+-"), n)
